@@ -66,6 +66,13 @@ NcIp4Cases == UNION { { Case("nc", pos - 1, [Chain(1) EXCEPT ![pos].nc = NcOf(si
                           pos \in 1..2, side \in Sides, a \in Addrs(V4Net, p) } : p \in Prefixes4 }
 NcIp6Cases == UNION { { Case("nc", pos - 1, [Chain(1) EXCEPT ![pos].nc = NcOf(side, Ip(V6Net, p)), ![3].names = <<Ip(a, 128)>>], Now, "server") :
                           pos \in 1..2, side \in {"perm", "excl"}, a \in Addrs(V6Net, p) } : p \in Prefixes6 }
+(* IPv4-mapped IPv6 addresses (::ffff:a.b.c.d) are IPv6 addresses: a 16-octet name meets only 16-octet constraints, *)
+(* and a 4-octet name only 4-octet ones                                                                          *)
+Mapped(a4) == <<0, 0, 0, 0, 0, 0, 0, 0, 0, 0, 255, 255>> \o a4
+NcMappedCases == { Case("nc", 0, [Chain(1) EXCEPT ![1].nc = NcOf(side, cn), ![3].names = <<nm>>], Now, "server") :
+                     side \in {"perm", "excl"},
+                     cn \in { Ip(Mapped(<<0, 0, 0, 0>>), 96), Ip(Mapped(<<10, 0, 0, 0>>), 104), Ip(<<10, 0, 0, 0>>, 8) },
+                     nm \in { Ip(Mapped(<<10, 1, 2, 3>>), 128), Ip(<<10, 1, 2, 3>>, 32), Ip(Mapped(<<11, 1, 2, 3>>), 128) } }
 (* several names: one inside, one outside *)
 NcMixCases == { Case("nc", 0, [Chain(1) EXCEPT ![1].nc = NcOf("perm", Dns(<<"example", "test">>)), ![3].names = nms], Now, "server") :
                   nms \in { <<Dns(<<"a", "example", "test">>), Dns(<<"b", "example", "test">>)>>, <<Dns(<<"a", "example", "test">>), Dns(<<"other", "org">>)>>,
@@ -73,11 +80,11 @@ NcMixCases == { Case("nc", 0, [Chain(1) EXCEPT ![1].nc = NcOf("perm", Dns(<<"exa
 
 EkuSets == { <<>>, <<"server">>, <<"client">>, <<"code">>, <<"server", "client">>, <<"client", "code">>, <<"server", "client", "code">> }
 EkuCases == { Case("eku", n + 1, [Chain(n) EXCEPT ![n + 2].eku = e], Now, p) : n \in 0..1, e \in EkuSets, p \in {"server", "client"} }
-KuSets == { <<>>, <<5>>, <<6>>, <<0, 5>>, <<0>>, <<0, 6>> }
+KuSets == { <<>>, <<5>>, <<6>>, <<0, 5>>, <<0>>, <<0, 6>>, <<0, 6, 6>>, <<5, 6, 5>>, <<6, 5, 6, 5>> }   \* also lists that name a usage twice
 CertSignCases == { Case("certsign", pos - 1, [Chain(n) EXCEPT ![pos].ku = k], Now, "server") : n \in 0..2, pos \in 1..3, k \in KuSets }
 
 Wf(k) == k.pos + 1 <= Len(k.chain) /\ (k.grp \in {"caflag", "pathlen", "certsign", "nc"} => k.pos + 1 < Len(k.chain))
-Cases == { k \in OkCases \cup CaFlagCases \cup CaFlagBareCases \cup FarTimeCases \cup PathLenCases \cup TimeCases \cup NcDnsCases \cup NcIp4Cases \cup NcIp6Cases \cup NcMixCases
+Cases == { k \in OkCases \cup CaFlagCases \cup CaFlagBareCases \cup FarTimeCases \cup PathLenCases \cup TimeCases \cup NcDnsCases \cup NcIp4Cases \cup NcIp6Cases \cup NcMixCases \cup NcMappedCases
                   \cup EkuCases \cup CertSignCases : Wf(k) }
 
 Init == c \in Cases /\ phase = "built" /\ verdict = FALSE
